@@ -226,6 +226,10 @@ package fs
 //@   ensures stack: len(c.parentDirs) == old(len(c.parentDirs)) && (ref(c.parentDirs) == old(ref(c.parentDirs)) || fresh(c.parentDirs))
 //@   ensures notdir: !stat.IsDir() ==> result1 != nil && clk() == old(clk())
 //@   at call copyDirectoryOnly: only_if_selected: include && arg0 == dst
+// nothing in the destination is removed on behalf of a directory that is not selected itself
+//@   at call copier.removeTargetIfNeeded: only_if_selected: include
+//@   at call os.RemoveAll: only_if_selected: include
+//@   at call os.Remove: only_if_selected: include
 //@   at call copier.notifyChange: only_if_selected: include && arg1 == dst
 //@   at call os.ReadDir: pushed: len(c.parentDirs) == old(len(c.parentDirs)) + 1 && c.parentDirs[len(c.parentDirs)-1].srcPath == src && c.parentDirs[len(c.parentDirs)-1].dstPath == dst && c.parentDirs[len(c.parentDirs)-1].copied == include
 
@@ -299,6 +303,9 @@ package fs
 //@   ensures src_lstat: cnt(Lstat) >= old(cnt(Lstat)) + 1
 //@   at call os.Lstat#0: source: arg0 == srcFollowed
 //@   at call os.Stat#0: dest: arg0 == destPath && cnt(Lstat) == old(cnt(Lstat)) + 1
+// the destination is inspected afresh by every call (an earlier source of the same copy may have
+// created it): when the parent directories are made, exactly one Stat has happened here, on destPath
+//@   at call MkdirAll: dest_inspected_in_this_call: cnt(Stat) == old(cnt(Stat)) + 1 && arg(Stat, 0) == destPath
 //@   at call MkdirAll: rows: arg0 == ite(copyDirContents && fiSrc.IsDir() && fiDest == nil, ite((!copyDirContents && fiSrc.IsDir() && fiDest != nil) || (!fiSrc.IsDir() && fiDest != nil && fiDest.IsDir()), filepath.Join(destPath, filepath.Base(filepath.Join("/", src))), destPath), filepath.Dir(ite((!copyDirContents && fiSrc.IsDir() && fiDest != nil) || (!fiSrc.IsDir() && fiDest != nil && fiDest.IsDir()), filepath.Join(destPath, filepath.Base(filepath.Join("/", src))), destPath)))
 
 // src and dst arguments are resolved as if their root were "/"
